@@ -20,7 +20,9 @@ def main() -> int:
     rr = C.replay_batch([job])[0]
     label = doc["replay"].get("label")
     print(json.dumps(rr, indent=1)[:4000])
-    if label and label.startswith("exception:"):
+    if rr.get("timeout"):
+        bad = bool(label) and label.startswith("terminates:")
+    elif label and label.startswith("exception:"):
         bad = "exc" in rr
     elif "failed" in rr:
         bad = any(f["label"] == label for f in rr["failed"]) if label else bool(rr["failed"])
